@@ -89,7 +89,8 @@ class Book:
         self.shape = wbgen.shape_signature(spec, meta)
 
     def case(self):
-        return {'spec': self.spec, 'meta': self.meta}
+        return {'spec': self.spec, 'meta': self.meta, 'config': self.config,
+                'stored': getattr(self.factory, 'stored', None)}
 
     def bad(self, key, msg, extra):
         c = self.case()
@@ -164,7 +165,18 @@ class Book:
             want = exp[i][j][1]
             if not wb.same(v, want):
                 cell = wb.addr(sheet, wb.coord(c1 + j, r1 + i))
-                self.bad(f'{tag}-element-differs',
+                key = f'{tag}-element-differs'
+                if self.config == 'xlsx-stale':
+                    # mechanism: the range starts at the first cell of an array formula, so pycel gives the range
+                    # the array formula and computes it, while the member cells serve their (stale) stored results
+                    for a_sheet, a_ref, _f in self.spec['arrays']:
+                        rows = wb.range_cells(a_ref)
+                        if a_sheet == sheet and rows[0][0] == wb.coord(c1, r1) and \
+                                wb.coord(c1 + j, r1 + i) in [c for row in rows for c in row] and \
+                                all(wb.coord(c, r) in [x for row in rows for x in row]
+                                    for c in range(c1, c2 + 1) for r in range(r1, r2 + 1)):
+                            key += '/array-range-computed-while-its-cells-serve-stale-stored-results'
+                self.bad(key,
                          f'element [{i}][{j}] of evaluate({text!r}) is {v!r} but evaluate({cell!r}) is {want!r}',
                          {'kind': 'path', 'path': text, 'first': first})
                 return
@@ -368,24 +380,44 @@ def context_books(ctx, rng):
         book.paths(rng, 4)
 
 
-def stale_xlsx_factory(ctx, spec, meta, rng):
+def stale_xlsx_factory(ctx, spec, meta, rng, stored=None):
     """an .xlsx whose stored formula results are NOT what the formulas produce (a stale cache: manual
     calculation mode, volatile functions).  Whatever pycel serves for a cell - the stored result or a
     recalculation - it must be the same whichever way and in whichever order the cell is reached."""
     from pycel import ExcelCompiler
-    fresh = wb.fresh_values(spec)
-    stored = {}
-    for a, o in fresh.items():
-        if o[0] != 'v' or o[1] is None or a not in meta['formulas']:
-            continue
-        v = o[1]
-        if rng.random() < 0.6:
-            v = (v + 1000) if isinstance(v, (int, float)) and not isinstance(v, bool) else (
-                f'{v}-stale' if isinstance(v, str) and not v.startswith('#') else v)
-        stored[a] = v
+    if stored is None:
+        fresh = wb.fresh_values(spec)
+        stored = {}
+        for a, o in fresh.items():
+            if o[0] != 'v' or o[1] is None or a not in meta['formulas']:
+                continue
+            v = o[1]
+            if rng.random() < 0.6:
+                v = (v + 1000) if isinstance(v, (int, float)) and not isinstance(v, bool) else (
+                    f'{v}-stale' if isinstance(v, str) and not v.startswith('#') else v)
+            stored[a] = v
     path = f'{ctx.tmpdir}/stale.xlsx'
     wb.write_xlsx(spec, path, stored)
-    return lambda: ExcelCompiler(filename=path)
+    factory = lambda: ExcelCompiler(filename=path)          # noqa: E731
+    factory.stored = stored
+    return factory
+
+
+def stale_array_case(ctx):
+    """directed: an array formula whose stored results in the file are stale.  The range that carries the array
+    formula is computed, its cells serve the stored results (a known finding, see known_findings.json)."""
+    import random
+    spec = {'sheets': [['Sheet1', {'A1': 1, 'B1': 2, 'C1': 3}]], 'names': {},
+            'arrays': [['Sheet1', 'A3:C3', '=A1:C1*10']], 'calc': None}
+    meta = {'formulas': {f'Sheet1!{c}3': {'form': 'cse', 'deps': []} for c in 'ABC'}, 'inputs': [], 'order': []}
+    stored = {'Sheet1!A3': 10, 'Sheet1!B3': 1020, 'Sheet1!C3': 30}
+    book = Book(ctx, spec, meta, stale_xlsx_factory(ctx, spec, meta, random.Random(0), stored), 'xlsx-stale')
+    comp = book.factory()
+    for a in book.addresses:
+        wb.outcome(comp.evaluate, a)
+    ctx.count('directed:stale_array_case')
+    book.compare_range(comp, 'Sheet1', 'Sheet1!A3:C3', 1, 3, 3, 3, 'rect')
+    book.compare_range(book.factory(), 'Sheet1', 'Sheet1!A3:B3', 1, 3, 2, 3, 'rect', first=True)
 
 
 def one_book(ctx, spec, meta, rng, max_sampled=120, n_rects=12, do_orders=True, config='mem'):
@@ -428,6 +460,7 @@ def run(ctx):
     if ctx.shard == 0:
         clip_edge_cases(ctx)
         array_edge_cases(ctx)
+        stale_array_case(ctx)
     if ctx.shard == 1 % ctx.nshards:
         context_books(ctx, rng)
     # the workbooks shipped with the repository (date, text, lookup, ... functions; CSE arrays; several sheets)
@@ -458,8 +491,28 @@ def replay(ctx, case):
     if case.get('kind') == 'real-book':
         realbooks.c05_case(ctx, case['book'], case['case_seed'])
         return
-    book = Book(ctx, case['spec'], case['meta'])
+    if case.get('config') == 'xlsx-stale' and case.get('stored') is not None:
+        book = Book(ctx, case['spec'], case['meta'],
+                    stale_xlsx_factory(ctx, case['spec'], case['meta'], random.Random(0), case['stored']),
+                    'xlsx-stale')
+    else:
+        book = Book(ctx, case['spec'], case['meta'])
     if case.get('kind') == 'order':
         book.check_order(case['order'])
-    else:
-        book.paths(random.Random(0), 30)
+        return
+    path = str(case.get('path') or '')
+    try:
+        sheet, ref = path.rsplit('!', 1)
+        a, b = ref.split(':')
+        (c1, r1), (c2, r2) = wb.split_coord(a), wb.split_coord(b)
+    except Exception:
+        sheet = None
+    if sheet is not None:
+        # the very path of the witness: after everything was evaluated, or as the first access of a model
+        comp = book.factory()
+        if not case.get('first'):
+            for x in book.addresses:
+                wb.outcome(comp.evaluate, x)
+        book.compare_range(comp, sheet.strip("'").replace("''", "'"), path, c1, r1, c2, r2, 'rect',
+                           first=bool(case.get('first')))
+    book.paths(random.Random(0), 30)
